@@ -4,6 +4,7 @@
   error type: `Err.internal` carries an arbitrary class name).
 -/
 import PyGqlModel.Sdl
+import PyGqlModel.SdlExtend
 import PyGqlModel.Props.C11
 
 set_option linter.unusedVariables false
@@ -358,5 +359,93 @@ theorem build_rejects_full_refuted : ¬ BuildRejectsStatement := by
     subst hl
     rw [hr] at hb
     simp at hb
+
+/-! ### the public `extend_schema(schema, document, strict)` (model: PyGqlModel/SdlExtend.lean) -/
+
+theorem collectExtStep_err (ht hd : String → Bool) (strict : Bool) (acc : ExtCollected) (d : Def) (e : Err)
+    (h : collectExtStep ht hd strict acc d = .error e) : e = .lib .ext := by
+  cases d <;> simp only [collectExtStep, extErr, pure, Except.pure] at h
+  all_goals (repeat' (split at h))
+  all_goals (cases h <;> rfl)
+
+theorem filterTargets_err (ht : String → Bool) (strict : Bool) (nd : List TypeDef) : ∀ (es : List TypeDef) (e : Err),
+    filterTargets ht strict nd es = .error e → e = .lib .ext := by
+  intro es
+  induction es with
+  | nil => intro e h; simp [filterTargets, pure, Except.pure] at h
+  | cons x xs ih =>
+    intro e h
+    simp only [filterTargets] at h
+    split at h
+    · rcases bind_err _ _ _ h with h1 | ⟨_, _, h2⟩
+      · exact ih e h1
+      · simp [pure, Except.pure] at h2
+    · split at h
+      · simp [extErr] at h; exact h.symm
+      · exact ih e h
+
+private theorem foldlM_ext {α β} (f : β → α → R β) (hf : ∀ acc x e, f acc x = .error e → e = .lib .ext) :
+    ∀ (l : List α) (acc : β) (e : Err), l.foldlM f acc = .error e → e = .lib .ext := by
+  intro l
+  induction l with
+  | nil => intro acc e h; simp [List.foldlM, pure, Except.pure] at h
+  | cons x xs ih =>
+    intro acc e h
+    rw [List.foldlM_cons] at h
+    rcases bind_err _ _ _ h with h1 | ⟨_, _, h2⟩
+    · exact hf _ _ e h1
+    · exact ih _ e h2
+
+/-- **`_collect_extensions` fails with `ExtensionError` only** — whatever the schema, the document and `strict` -/
+theorem collectExtensions_rejects (live : Live) (doc : Doc) (strict : Bool) (e : Err)
+    (h : collectExtensions live doc strict = .error e) : e = .lib .ext := by
+  unfold collectExtensions at h
+  rcases bind_err _ _ _ h with h1 | ⟨_, _, h2⟩
+  · exact foldlM_ext _ (fun acc x e h => collectExtStep_err _ _ _ acc x e h) _ _ e h1
+  · rcases bind_err _ _ _ h2 with h3 | ⟨_, _, h4⟩
+    · exact filterTargets_err _ _ _ _ e h3
+    · simp [pure, Except.pure] at h4
+
+private theorem reDefaultDirectiveIn_err (env envX : Env) (defs : List DirDef) (d : DirectiveD) (e : Err)
+    (h : reDefaultDirectiveIn env envX defs d = .error e) : Good e := by
+  unfold reDefaultDirectiveIn at h
+  split at h
+  · exact buildDirectiveX_err env envX _ e h
+  · simp [pure, Except.pure] at h
+
+/-- **extend_rejects**: whatever the schema (built from SDL), the extension document and `strict`, if the public
+    `extend_schema` does not return a schema it fails with `SDLError`, `ExtensionError` or `SchemaError` — or with the
+    `RecursionError` of finding S1b.  No other branch. -/
+theorem extend_rejects (baseDefs : List TypeDef) (baseDirs : List DirDef) (live : Live) (doc : Doc) (strict : Bool) (e : Err)
+    (h : extendSchemaPublic baseDefs baseDirs live doc strict = .error e) : Good e := by
+  unfold extendSchemaPublic at h
+  rcases bind_err _ _ _ h with h0 | ⟨c, _, h⟩
+  · rw [collectExtensions_rejects _ _ _ e h0]; exact good_lib _
+  · simp only [] at h
+    split at h
+    · simp [pure, Except.pure] at h
+    · rcases bind_err _ _ _ h with h1 | ⟨_, _, h⟩
+      · exact mapM_err _ (reDefaultDirectiveIn_err _ _ _) _ e h1
+      · rcases bind_err _ _ _ h with h1 | ⟨_, _, h⟩
+        · exact mapM_err _ (buildDirectiveX_err _ _) _ e h1
+        · rcases bind_err _ _ _ h with h1 | ⟨_, _, h⟩
+          · rw [failIf_err _ _ _ h1]; exact good_lib _
+          · rcases bind_err _ _ _ h with h1 | ⟨_, _, h⟩
+            · exact mapM_err _ (fun t e h => extendTypeX_err _ _ _ _ t e h) _ e h1
+            · rcases bind_err _ _ _ h with h1 | ⟨_, _, h⟩
+              · exact mapM_err _ (fun t e h => reDefault_err _ _ _ _ t e h) _ e h1
+              · rcases bind_err _ _ _ h with h1 | ⟨_, _, h⟩
+                · exact mapM_err _ (fun d e h => buildTypeDefX_err _ _ _ d e h) _ e h1
+                · rcases bind_err _ _ _ h with h1 | ⟨_, _, h⟩
+                  · exact mapM_err _ (fun t e h => extendTypeX_err _ _ _ _ t e h) _ e h1
+                  · rcases bind_err _ _ _ h with h1 | ⟨_, _, h⟩
+                    · exact mapM_err _ (fun t e h => reDefault_err _ _ _ _ t e h) _ e h1
+                    · rcases bind_err _ _ _ h with h1 | ⟨_, _, h⟩
+                      · rw [failIf_err _ _ _ h1]; exact good_lib _
+                      · rcases bind_err _ _ _ h with h1 | ⟨_, _, h⟩
+                        · exact foldlM_err _ (fun acc x e h => addOps_err _ _ _ _ e h) _ _ e h1
+                        · rcases bind_err _ _ _ h with h1 | ⟨_, _, h⟩
+                          · rw [failIf_err _ _ _ h1]; exact good_lib _
+                          · simp [pure, Except.pure] at h
 
 end PyGql.Props.C11
